@@ -727,19 +727,24 @@ class ItemGrader(AbstractGrader):
         # If expect is provided, infer an answer if we either don't have an answer or
         # are always inferring answers
         if expect is not None and (self.inferring_answers or not self.config['answers']):
-            inferred = self.infer_from_expect(expect)
+            # Refuse non-text input before a debug log is started for it
+            student_input = self.ensure_text_inputs(student_input)
 
-            # Create the debug log...
-            self.create_debuglog(student_input)
-            # ... so that we can add the inferred answers to it before
-            # calling AbstractGrader.__call__
+            inferred = self.infer_from_expect(expect)
             output = json.dumps(inferred)  # How to avoid unicode 'u' showing up!
-            self.log("Expect value inferred to be {}".format(output))
 
             # Validate the answers, including post-schema answer validation,
             # before storing them: an invalid expect value must not clobber
             # the answers inferred from an earlier, valid one.
             answers = self.post_schema_ans_val(self.schema_answers(inferred))
+
+            # Create the debug log (only once nothing above can fail, so that a
+            # failed call does not leave a half-built log for the next call)...
+            self.create_debuglog(student_input)
+            # ... so that we can add the inferred answers to it before
+            # calling AbstractGrader.__call__
+            self.log("Expect value inferred to be {}".format(output))
+
             self.config['answers'] = answers
             # Note that this answer is now stored for future calls, but
             # will be overridden if a new expect value is provided.
